@@ -613,11 +613,14 @@ func (c *chroniclerV2) runCompactionLocked() error {
 	// Close the writer so its file handle is released and all buffered data
 	// is flushed before the compactor reads the file.
 	if c.writer != nil && !c.writerClosed {
-		if err := c.writer.Close(); err != nil {
-			return err
-		}
+		// The writer releases its descriptor even when Close fails, so it is
+		// gone either way; the next Write opens a fresh one.
+		err := c.writer.Close()
 		c.writerClosed = true
 		c.writer = nil
+		if err != nil {
+			return err
+		}
 	}
 
 	// Defensively wipe any leftover temp from a previously crashed run before
@@ -723,14 +726,17 @@ func (c *chroniclerV2) Close() error {
 	// Close the writer if currently open. Skip cleanly if already closed
 	// or never opened — we still want the compaction check below to run.
 	if c.writer != nil && !c.writerClosed {
-		if err := c.writer.Close(); err != nil {
+		// The writer releases its descriptor even when Close fails, so it is
+		// gone either way; a later Write opens a fresh one.
+		err := c.writer.Close()
+		c.writerClosed = true
+		c.writer = nil
+		if err != nil {
 			slog.Error("failed to close V2 chronicler writer",
 				"path", c.hydFilePath,
 				"error", err)
 			return err
 		}
-		c.writerClosed = true
-		c.writer = nil
 		slog.Debug("V2 chronicler closed",
 			"path", c.hydFilePath)
 	}
